@@ -11,6 +11,7 @@ package ring
 //@     (rb.size > 0 ==> rb.r < rb.size && rb.w < rb.size) &&
 //@     (rb.isEmpty ==> rb.r == 0 && rb.w == 0)
 //@ pure cnt(rb *Buffer) := rb.isEmpty ? 0 : (rb.w > rb.r ? rb.w - rb.r : rb.size - rb.r + rb.w)
+//@ pred emptywf(rb *Buffer) := wf(rb) && cnt(rb) == 0
 //@ pure at(rb *Buffer, i int) := rb.buf[rb.r + i < rb.size ? rb.r + i : rb.r + i - rb.size]
 //
 //@ func New(size int) *Buffer
